@@ -147,27 +147,27 @@ func (r *recorder) relMinMax() (int, int) {
 // ---------------------------------------------------------------- controlled scheduling
 
 type ctl struct {
-	r       *recorder
-	wake    chan struct{}
-	parked  map[int]chan struct{}
-	resting map[int]bool // the last operation told the instance to leave its loop (Left()==0 / Acquire !ok)
-	started func() int   // metrics.InstanceStart
-	stop    chan struct{}
-	stopped bool
-	wait    time.Duration // how long to wait for a running instance to park again before deciding without it
-	first   int           // instances to wait for before the first decision
-	rng     *rand.Rand
-	style   int
-	path    []int
-	pb      []preempt // preemption-bounded mode: run the same instance on unless one of these says otherwise
-	isPB    bool
+	r         *recorder
+	wake      chan struct{}
+	parked    map[int]chan struct{}
+	resting   map[int]bool // the last operation told the instance to leave its loop (Left()==0 / Acquire !ok)
+	started   func() int   // metrics.InstanceStart
+	stop      chan struct{}
+	stopped   bool
+	wait      time.Duration // how long to wait for a running instance to park again before deciding without it
+	first     int           // instances to wait for before the first decision
+	rng       *rand.Rand
+	style     int
+	path      []int
+	pb        []preempt // preemption-bounded mode: run the same instance on unless one of these says otherwise
+	isPB      bool
 	firstWait time.Duration
-	pos     int
-	last    int
-	br      []byte // per decision: number of options, choice (base 36)
-	partial int    // decisions taken while a live instance was not parked
-	fine    bool             // park also at the scheduling points inside the schedule's Next / Left
-	pending map[int][]string // fine: the shared-state accesses the parked instance performs when it goes on
+	pos       int
+	last      int
+	br        []byte           // per decision: number of options, choice (base 36)
+	partial   int              // decisions taken while a live instance was not parked
+	fine      bool             // park also at the scheduling points inside the schedule's Next / Left
+	pending   map[int][]string // fine: the shared-state accesses the parked instance performs when it goes on
 	// sctl: the goroutine that starts the instances (startInstances) is a controlled participant too: it parks before
 	// every Next() of the startup schedule, so instances can run, finish, run out of ammo … before the others exist
 	sctl        bool
